@@ -207,8 +207,7 @@ public:
 
    virtual status_t TemplatedUnflatten(DataUnflattener &)
    {
-      MCRASH("Message::TagDataArray:Unflatten()  This method should never be called!");
-      return B_UNIMPLEMENTED;  // just to keep the compiler happy
+      return B_UNIMPLEMENTED;  // tags are never flattened, but bytes received from the network can still claim to contain one, so we mustn't crash here
    }
 
    virtual uint32 TemplatedTypeCode() const {return B_TAG_TYPE;}
@@ -581,8 +580,7 @@ public:
 
    virtual status_t TemplatedUnflatten(DataUnflattener &)
    {
-      MCRASH("Message::PointerDataArray:Unflatten()  This method should never be called!");
-      return B_UNIMPLEMENTED;  // just to keep the compiler happy
+      return B_UNIMPLEMENTED;  // pointers are never flattened, but bytes received from the network can still claim to contain one, so we mustn't crash here
    }
 
    virtual AbstractDataArrayRef Clone() const;
